@@ -99,12 +99,13 @@ Inductive SOp := SUpdate (B : Blocks) (reuse : bool) | SSolve (fault : nat -> bo
 
 Section Run.
 Variable K : Consts.
+Variable sparse_pc : bool.      (* API.v: the Ruiz preconditioner of the sparse backend *)
 Variable junk : F.
 Variable cp_bits : Z.
 
 Definition sop_step (sv : Solver) (o : SOp) : res Solver :=
   match o with
-  | SUpdate B reuse => update K sv B reuse
+  | SUpdate B reuse => update K sparse_pc sv B reuse
   | SSolve fault => do '(sv', _) <- solve K junk cp_bits fault sv ;; Ok sv'
   end.
 
